@@ -125,7 +125,15 @@ def run_case(args):
                 return out
             h = prog.H5(os.path.join(wd, "o%d.h5" % attempt))
             Pc = physics.derive({k: v for k, v in oo.items() if k != "output"})
-            A = analyse(h, Pc)
+            try:
+                A = analyse(h, Pc)
+            except (ValueError, IndexError, FloatingPointError) as ex:
+                # no positive charge inside |q| <= 2, or no records: the run diverged or ended early - not a stationary state, hence not judged
+                out["incon"].append("profile not analysable (diverged run?): %s" % str(ex)[:80])
+                return out
+            if not all(np.isfinite(A[k]) for k in ("rangeR", "rangeT", "stationarity", "spread")):
+                out["incon"].append("non-finite profile or wake (diverged run)")
+                return out
             last = (A, oo, res)
             if attempt == 0 or not (0.04 <= A["rangeT"] <= 1.6):
                 if A["rangeT"] <= 0 or not np.isfinite(A["rangeT"]):
